@@ -125,6 +125,12 @@ def go_tables(models, prog, gen_dir, pkgs):
     return imp + "\n".join(lines) + "\n", [e for e, _ in entries], problems
 
 
+def typecheck(mod, pkg):
+    """go build of one generated package; returns the compiler's complaint or ''."""
+    r = subprocess.run(["go", "build", "./" + pkg + "/"], cwd=mod, env=genpipe.GOENV, capture_output=True, text=True)
+    return "" if r.returncode == 0 else (r.stderr or r.stdout)[-800:]
+
+
 def run(prop, spec, tier, scratch, known, vcheck):
     t0 = time.time()
     inconclusive, lines = [], []
@@ -143,7 +149,7 @@ def run(prop, spec, tier, scratch, known, vcheck):
     os.makedirs(cat)
     for f in glob.glob(os.path.join(VERIF, "catalogue", "c02_*.frugal")):
         open(os.path.join(cat, os.path.basename(f)), "w").write(open(f).read())
-    jobs = []
+    jobs, tc_violations = [], []
     tmpl = open(os.path.join(VERIF, "c02_harness.go.tmpl")).read()
     for f in files:
         prog = os.path.splitext(os.path.basename(f))[0]
@@ -156,6 +162,11 @@ def run(prop, spec, tier, scratch, known, vcheck):
             genpipe.run_frugal(exe, os.path.join(cat, inc), "go:package_prefix=verifgen/", mod)
         pkg = pkgs[prog]
         gdir = os.path.join(mod, pkg)
+        complaint = typecheck(mod, pkg)
+        if complaint:
+            tc_violations.append({"property": prop, "harness": "go build", "kind": "typecheck", "label": "generated Go does not type-check", "site": prog,
+                                  "fingerprint": "c02|%s|typecheck" % prog, "detail": complaint, "vector": [], "program": prog})
+            continue
         try:
             tables, entries, problems = go_tables(models, prog, gdir, pkgs)
         except Exception as e:
@@ -217,6 +228,18 @@ def run(prop, spec, tier, scratch, known, vcheck):
     exit_code, new = 0, 0
     os.makedirs(os.path.join(VERIF, "replays"), exist_ok=True)
     seen = set()
+    for v in tc_violations:
+        k = vcheck.match_known(known, prop, v["fingerprint"])
+        if k:
+            lines.append("KNOWN-FINDING: property=%s %s" % (prop, k["what"]))
+            continue
+        path = os.path.join(VERIF, "replays", "%s-%s.json" % (prop, hashlib.sha1(v["fingerprint"].encode()).hexdigest()[:10]))
+        v["confirmed_by"] = "go build of the generated package fails"
+        json.dump(v, open(path, "w"), indent=1)
+        lines.append("VIOLATION property=%s replay=%s" % (prop, path))
+        lines.append("  what: program %s: the generated Go package does not type-check: %s" % (v["program"], v["detail"][:300].replace("\n", " | ")))
+        new += 1
+        exit_code = 1
     for v, job in violations:
         fp = v["fingerprint"]
         if fp in seen:
